@@ -17,7 +17,8 @@ META = {
     "quick_s": 40, "thorough_s": 400,
 }
 
-THEOREMS = ["relate_cov_shape", "relate_cov_constraints", "xform_assoc", "invert_involutive"]
+THEOREMS = ["relate_cov_shape", "relate_cov_constraints", "relate_cov_shape_unknowns", "relate_cov_constraints_unknowns",
+            "xform_assoc", "invert_involutive"]
 
 PROGRAM = """
 #[variance(Covariant)] struct CoT<T> {}
